@@ -452,6 +452,24 @@ def main():
                          ['--strategy', 'ddmin', '-j', str(j), '--disable-all',
                           '--erase-node'],
                          {'strategy': 'ddmin', 'jobs': j, 'n': 'late-%d' % j}))
+        # every test ends: candidates on which the command is a wrapper
+        # whose blocked child inherited the pipes run into the time limit;
+        # killing the command does not close the pipes
+        blk = ('(set-logic QF_LIA)\n(declare-const a Int)\n'
+               '(declare-const b Int)\n(assert (= a b))\n'
+               '(assert (> a 0))\n(check-sat)\n')
+        for st, j in (('hierarchical', 1), ('ddmin', 1), ('hybrid', 2)):
+            cfgs.append((blk, {'mode': 'contains',
+                               'markers': ['set-logic', '='],
+                               'near': {'pred': {'mode': 'contains',
+                                                 'markers': ['=']},
+                                        'beh': {'exit': 0, 'out': '',
+                                                'err': '',
+                                                'block_with_child_s': 40},
+                                        'acceptable': False}},
+                         ['--strategy', st, '-j', str(j), '--timeout', '0.5',
+                          '--disable-all', '--erase-node'],
+                         {'strategy': st, 'jobs': j, 'n': 'blocked-%s' % st}))
         items = S.execute(cfgs, label='c03', timeout=runs.time_limit(120))
         names = {str(m): type(m).__name__ for m in P.all_mutators(mods)}
         import tracecheck
